@@ -19,6 +19,7 @@ import dataclasses
 import json
 import re
 import typing
+import inspect
 import warnings
 
 from harness import core
@@ -194,13 +195,15 @@ def gen_sig(rng, idx: int, force=None):
     if rng.random() < 0.3:
         rng.shuffle(kinds)  # spox does not insist on "only a suffix may be optional"
     if rng.random() < 0.45:
-        kinds.append("variadic")
-    if not kinds:
-        kinds = ["single"]
+        # spox does not insist on "the variadic field comes last" either: first / middle / last
+        pos = rng.choice([len(kinds), len(kinds), 0, rng.randrange(0, len(kinds) + 1)])
+        kinds.insert(pos, "variadic")
+    if not kinds and rng.random() < 0.5:
+        kinds = ["single"]  # else: an operator without inputs (a generator), like Constant / RandomNormal
     inputs = [(f"i{j}", k) for j, k in enumerate(kinds)]
     okinds = ["single"] * rng.randrange(1, 3) + (["optional"] if rng.random() < 0.2 else [])
     if rng.random() < 0.35:
-        okinds.append("variadic")
+        okinds.insert(rng.choice([len(okinds), len(okinds), 0, rng.randrange(0, len(okinds) + 1)]), "variadic")
     outputs = [(f"o{j}", k) for j, k in enumerate(okinds)]
     attrs = []
     for j in range(rng.randrange(0, 5)):
@@ -876,6 +879,11 @@ def _compose_case(ck, env: Env, sig, position: str, rng, opset_reqs, v2=None, de
             if not deep_only:  # otherwise the custom domain is used *only* inside the nested body
                 n2 = cls2(cls2.Attributes(), cls2.Inputs(i0=extra_in))
                 outs["z"] = n2.outputs.o0
+            # the same operator NAME in another domain, at another version: identity is (domain, name), never name alone
+            sig3 = dict(sig2, name=sig["name"], domain=sig["domain"] + ".twin", version=sig["version"] + 7)
+            th3, _ = hook_dicts(env, sig3)
+            cls3 = make_class(env, sig3, th3, None)
+            outs["z3"] = cls3(cls3.Attributes(), cls3.Inputs(i0=extra_in)).outputs.o0
             if position == "top":
                 y = apply()
                 outs["y"] = op.identity(y)
@@ -928,6 +936,27 @@ def _compose_case(ck, env: Env, sig, position: str, rng, opset_reqs, v2=None, de
                 res = op.loop(m, v_initial=[extra_in],
                               body=lambda i, c, a: [op.const(np.array(True)), op.add(a, apply())])
                 outs["y"] = res[0]
+            elif position in ("function", "function-if"):
+                # inside the body of a function (`to_function`), directly or in an If branch there
+                to_function = __import__("spox._function", fromlist=["to_function"]).to_function
+                keys_ = list(args)
+                outer_args = dict(args)
+                inputs["cond"] = cond
+
+                def wrap(c_, *xs):
+                    nonlocal args
+                    args = dict(zip(keys_, xs))
+                    if position == "function":
+                        return [op.identity(apply())]
+                    return list(op.if_(c_, then_branch=lambda: [apply()], else_branch=lambda: [op.const(np.zeros((1,), np.float32))]))
+
+                # `to_function` reads the arity off the signature
+                wrap.__signature__ = inspect.Signature(
+                    [inspect.Parameter(f"p{i}", inspect.Parameter.POSITIONAL_OR_KEYWORD) for i in range(1 + len(keys_))])
+                wrap = to_function(f"F{sig['name']}", "fn.c18")(wrap)
+                (r,) = wrap(cond, *outer_args.values())
+                args = outer_args
+                outs["y"] = r
             elif position == "inline":
                 a0 = env.argument(ts.Tensor(np.float32, (1,)))
                 m0 = env.build({"a0": a0}, {"b0": op.relu(a0)})
@@ -948,12 +977,23 @@ def _compose_case(ck, env: Env, sig, position: str, rng, opset_reqs, v2=None, de
                    f"{type(e).__name__}: {str(e)[:200]}", case)
         return
     nodes = [n for n in find_nodes(model.graph, sig["domain"]) if n.op_type == sig["name"]]
+    if position in ("function", "function-if"):
+        fps = [f for f in model.functions if f.domain == "fn.c18"]
+        nodes = [n for f in fps for n in find_nodes(f, sig["domain"]) if n.op_type == sig["name"]]
+        fimp = {o.domain: o.version for f in fps for o in f.opset_import}
+        if len(fps) == 1 and (fimp.get(sig["domain"]) or 0) < sig["version"]:
+            ck.failure(f"import:{position}:version", f"the FunctionProto imports {sig['domain']} at {fimp.get(sig['domain'])}, "
+                       f"its body uses version {sig['version']}", case)
+        # inside the function the inputs are the function's formals: compare the pattern of slots
+        position_pattern = True
+    else:
+        position_pattern = False
     if len(nodes) != 1:
         ck.failure(f"build:{position}:count", f"{len(nodes)} {sig['name']} nodes in the model for one application", case)
         return
     p = nodes[0]
     want = expected_slots(sig)
-    if position == "inline-feed":
+    if position == "inline-feed" or position_pattern:
         # the inputs are produced by inlined models (generated names): compare the pattern of slots
         groups = {}
         got_pat = [None if not x else groups.setdefault(x, len(groups)) for x in p.input]
@@ -973,6 +1013,10 @@ def _compose_case(ck, env: Env, sig, position: str, rng, opset_reqs, v2=None, de
     if imports.get(sig["domain"]) != want_v:
         ck.failure(f"import:{position}:version", f"opset import for {sig['domain']} is {imports.get(sig['domain'])}; versions used "
                    f"{sig['version']}" + ("" if deep_only else f" and {sig2['version']}"), case)
+    twins = [n for n in find_nodes(model.graph, sig["domain"] + ".twin") if n.op_type == sig["name"]]
+    if len(twins) != 1 or list(twins[0].input) != ["extra"] or imports.get(sig["domain"] + ".twin") != sig["version"] + 7:
+        ck.failure(f"import:{position}:twin", f"operator {sig['name']} of domain {sig['domain']}.twin (version {sig['version'] + 7}): "
+                   f"{len(twins)} nodes, inputs {[list(t.input) for t in twins]}, import {imports.get(sig['domain'] + '.twin')}", case)
     if len([o for o in model.opset_import if o.domain == sig["domain"]]) != 1:
         ck.failure(f"import:{position}:duplicate", "several imports of the custom domain", case)
     if real_req is not None:
@@ -1362,6 +1406,32 @@ def run(ck: core.Check):
             for pat in repeat_patterns([s for s in raw_slots(sig) if s], rng, 0):
                 sig2 = dict(sig, inst=dict(sig["inst"], same=pat))
                 run_case(ck, env, sig2, rng, reqs, metas, stats)
+    # field-shape grid: a variadic input (0..3 members) first / in the middle / last, optionals set / unset before
+    # and after it, up to three optionals at the tail, with and without a leading single input: the emitted
+    # input list is compared position by position with the declaration (`len(inputs)` = flattened positions)
+    gi = 0
+    for lead in (False, True):
+        for nb in (0, 1):
+            for na in (0, 1, 2, 3):
+                names_b = [f"b{j}" for j in range(nb)]
+                names_a = [f"t{j}" for j in range(na)]
+                inputs = ([("s0", "single")] if lead else []) + [(n, "optional") for n in names_b] \
+                    + [("xs", "variadic")] + [(n, "optional") for n in names_a]
+                for bits in range(2 ** (nb + na)):
+                    for nvar in (0, 1, 2, 3):
+                        gi += 1
+                        if not ck.thorough and (gi + ck.seed) % 2 and not (nvar >= 2 and na and not bits >> nb):
+                            continue  # quick tier: every second one, but always "≥2 members, tail all unset"
+                        sig = gen_sig(rng, 40_000 + gi, {"inputs": inputs})
+                        sig["inst"]["present"] = {n: bool(bits >> j & 1) for j, n in enumerate(names_b + names_a)}
+                        sig["inst"]["nvar"] = nvar
+                        sig["inst"]["vform"] = ["list", "tuple", "gen"][gi % 3]
+                        sig["inst"].pop("same", None)
+                        sig["inst"].pop("vmut", None)
+                        run_case(ck, env, sig, rng, reqs, metas, stats)
+                        stats["shape_grid"] = stats.get("shape_grid", 0) + 1
+                        if nvar >= 2 and na and gi % 3 == 0:
+                            compose_case(ck, env, sig, "top", rng, [])
     # second inference
     re_meta = []
     for i in range(ck.pick(20, 100)):
@@ -1377,7 +1447,7 @@ def run(ck: core.Check):
     opset_reqs = []
     for i in range(ck.pick(40, 300)):
         sig = gen_sig(rng, 30_000 + i)
-        for position in ("top", "if", "loop", "inline", "if2", "loop-if") + FEED_POSITIONS:
+        for position in ("top", "if", "loop", "inline", "if2", "loop-if", "function", "function-if") + FEED_POSITIONS:
             compose_case(ck, env, sig, position, rng, opset_reqs)
     for req, imports, position in opset_reqs:
         reqs.append({"kind": "opsets", "reqs": [[d, v] for d, v in req]})
